@@ -537,8 +537,14 @@ class Rules:
                 continue
             want = Term("proj1", (e.d["result"],), "u32").key()
             verdict = None
+            in_loop = False
             for x in evs[idx + 1:]:
+                if x.kind == "loop_enter":
+                    in_loop = True      # e.g. `for _ in 0..count { advance() }`: consumed piecewise, no verdict
                 if x.kind == "consume" and x.d.get("cursor") == "main":
+                    if in_loop:
+                        verdict = None
+                        break
                     cnt = x.d.get("count")
                     if hasattr(cnt, "key") and (cnt.key() == want or repr(want) in repr(cnt.key())):
                         verdict = True     # the scanned run is consumed as a whole
